@@ -30,6 +30,7 @@ func runC08(r *Run, p *Prog) {
 	}
 	root := generatorRoot(p)
 	w, _, why2 := RunGenWalker(p, m, root)
+	curWalker = w
 	if w == nil {
 		r.Unresolved("B1", why2)
 		return
@@ -208,9 +209,24 @@ func runC08(r *Run, p *Prog) {
 		want := map[string]string{"TypeBool": "bool", "TypeInt": "int64", "TypeFloat": "float64", "TypeString": "string", "TypeEnum": "string", "TypeObject": "json.RawMessage",
 			"TypeArray": "[]", "TypeMap": "map[string]", "TypeMaybe": "*", "TypeStruct": "struct"}
 		seen := map[string]bool{}
-		for _, c := range sw.Body.List {
-			cc := c.(*ast.CaseClause)
-			kinds := kindsOfCase(info, cc)
+		for _, arm := range typeWriterArms(w, tw, sw) {
+			kinds := arm.kinds
+			ccPos := arm.pos
+			if arm.vals != nil {
+				// table-driven: the kind's entry is what is written first
+				for i, k := range kinds {
+					seen[k] = true
+					wantS, known := want[k]
+					firstW := ""
+					if wa := firstWriteArg(arm.body); wa != nil {
+						if ps, ok := w.pieces(wa); ok && len(ps) > 0 && ps[0].alts != nil {
+							firstW = arm.vals[i]
+						}
+					}
+					r.Ob("B3", tw.Name.Name, k+" is rendered as Go type `"+wantS+"…`", ccPos, known && firstW == wantS, fmt.Sprintf("rendered as %q (table entry): the generated binding would encode this varlink type differently from the varlink JSON mapping", firstW))
+				}
+				continue
+			}
 			// first thing written in the arm
 			first, firstDyn := "", ""
 			depthB3 := 0
@@ -265,16 +281,16 @@ func runC08(r *Run, p *Prog) {
 				}
 				return false
 			}
-			find(cc.Body)
+			find(arm.body)
 			for _, k := range kinds {
 				seen[k] = true
 				if k == "TypeAlias" {
-					r.Ob("B3", tw.Name.Name, "TypeAlias is rendered as the referenced type's name", cc.Pos(), firstDyn == "Type.Alias", "alias rendered as "+firstDyn+first)
+					r.Ob("B3", tw.Name.Name, "TypeAlias is rendered as the referenced type's name", ccPos, firstDyn == "Type.Alias", "alias rendered as "+firstDyn+first)
 					continue
 				}
 				wantS, known := want[k]
 				ok := known && (first == wantS || (wantS == "struct" && strings.HasPrefix(first, "struct")))
-				r.Ob("B3", tw.Name.Name, k+" is rendered as Go type `"+wantS+"…`", cc.Pos(), ok, fmt.Sprintf("rendered as %q: the generated binding would encode this varlink type differently from the varlink JSON mapping", first))
+				r.Ob("B3", tw.Name.Name, k+" is rendered as Go type `"+wantS+"…`", ccPos, ok, fmt.Sprintf("rendered as %q: the generated binding would encode this varlink type differently from the varlink JSON mapping", first))
 			}
 		}
 		for k := range want {
